@@ -29,13 +29,14 @@ OKV == [v |-> "ok"]
 \* the specification kind that governs what a variant's node can hold
 KindOf(e) ==
   IF e.kind # "any" THEN e.kind
-  ELSE CASE e.variant \in {"text/parsed", "text/created", "merged/parsed"} -> "text"
+  ELSE CASE e.variant \in {"text/parsed", "text/created", "merged/parsed", "text/detached"} -> "text"
          [] e.variant = "attrtext/parsed" -> "attr"
-         [] e.variant \in {"comment/parsed", "comment/created"} -> "comment"
-         [] e.variant \in {"cdata/parsed", "cdata/created"} -> "cdata"
+         [] e.variant \in {"comment/parsed", "comment/created", "comment/detached"} -> "comment"
+         [] e.variant \in {"cdata/parsed", "cdata/created", "cdata/detached"} -> "cdata"
          [] OTHER -> "text"
 
 IsRead(op) == op \in {"length", "data", "substring"}
+Detached(e) == e.variant \in {"text/detached", "cdata/detached", "comment/detached"}
 
 RECURSIVE StripLeadingWs(_)
 StripLeadingWs(d) == IF d # <<>> /\ IsWs(d[1]) THEN StripLeadingWs(Tail(d)) ELSE d
@@ -65,7 +66,8 @@ C16Verdict(e) ==
        ELSE IF IsRead(c.op) THEN [v |-> "VIOLATION", why |-> "a read with a valid offset failed", err |-> out.err]
        ELSE IF out.err = "IndexSizeErr" THEN [v |-> "VIOLATION", why |-> "index-size error although offset <= length (a count past the end must be clipped)", err |-> out.err]
        ELSE IF MayRefuse(k, r.data) \/ (c.op = "split" /\ MayRefuse(k, r.ret)) THEN OKV
-       ELSE IF c.op = "split" /\ e.variant \in {"text/created", "cdata/created", "text/parsed", "cdata/parsed", "attrtext/parsed"} /\ out.err = "HierarchyRequestErr" /\ FALSE THEN OKV
+       \* DOM Level 1 does not say what split_text does to a text node that has no parent
+       ELSE IF c.op = "split" /\ Detached(e) THEN OKV
        ELSE [v |-> "VIOLATION", why |-> "storable data refused", err |-> out.err, expected |-> r.data]
   ELSE \* success: exact effect (a PI's data begins at the first non-blank character after the target, so an
        \* implementation that drops leading white space from the data it is given stores what the text can hold)
@@ -73,7 +75,7 @@ C16Verdict(e) ==
        ELSE IF e.len # Len(e.post) THEN [v |-> "VIOLATION", why |-> "length() is not the number of characters", expected |-> Len(r.data)]
        ELSE IF c.op = "length" /\ out.n # r.n THEN [v |-> "VIOLATION", why |-> "length() result", expected |-> r.n]
        ELSE IF c.op \in {"data", "substring", "split"} /\ out.ret # r.ret THEN [v |-> "VIOLATION", why |-> "returned string", expected |-> r.ret]
-       ELSE IF c.op = "split" /\ ~(e.sib.adjacent /\ e.sib.listed /\ e.sib.same_parent)
+       ELSE IF c.op = "split" /\ ~Detached(e) /\ ~(e.sib.adjacent /\ e.sib.listed /\ e.sib.same_parent)
             THEN [v |-> "VIOLATION", why |-> "split_text: the new node is not the next sibling under the same parent", sib |-> e.sib]
        ELSE OKV
 
